@@ -55,6 +55,17 @@ class MuxPeer(Peer):
       act = self.ping(k)
       if act[0] == 'pong':
         gevent.spawn(self._later, act[1], sock, M.encode_frame(M.R_PING, d['tag']))
+        hops = getattr(self, 'drop_after_next_pong', None)
+        if hops is not None:
+          # the peer answers the ping and goes away again a few turns of the client's event loop later
+          self.drop_after_next_pong = None
+
+          def drop(delay=act[1], n=hops):
+            gevent.sleep(delay)
+            for _ in range(n):
+              gevent.sleep(0)
+            sock.deliver_eof()
+          gevent.spawn(drop)
     elif t == M.T_DISPATCH:
       k = self.n_dispatch
       self.n_dispatch += 1
